@@ -244,7 +244,8 @@ class GeoBoxBase:
         assert self.crs is not None
         ext = self.extent
         if buffer != 0:
-            buffer = buffer * max(*self.resolution.xy)
+            # resolution is signed, both components are negative for x-mirrored rasters
+            buffer = buffer * max(abs(r) for r in self.resolution.xy)
             ext = ext.buffer(buffer)
 
         return ext.to_crs(crs, resolution=self._reproject_resolution(npoints)).dropna()
